@@ -275,7 +275,8 @@ class JointRecurrencePlot(RecurrencePlot):
             #     recurrence_y[:N+self.lag, :N+self.lag]
             self.JR = recurrence_y[:N+self.lag, :N+self.lag] * \
                 recurrence_x[-self.lag:N, -self.lag:N]
-        self.N = N
+        #  (the lagged joint recurrence matrix has N - |lag| rows)
+        self.N = self.JR.shape[0]
 
     def set_fixed_threshold_std(self, threshold_std):
         """
@@ -340,4 +341,5 @@ class JointRecurrencePlot(RecurrencePlot):
             #     recurrence_y[:N+self.lag, :N+self.lag]
             self.JR = recurrence_y[:N+self.lag, :N+self.lag] * \
                 recurrence_x[-self.lag:N, -self.lag:N]
-        self.N = N
+        #  (the lagged joint recurrence matrix has N - |lag| rows)
+        self.N = self.JR.shape[0]
